@@ -97,16 +97,16 @@ WAVE3_NOTE = {
     "C04": "decoders handed slices longer than the field; non-value bits of the PTS/DTS fields inside a PES header flipped; PES headers cut by the packet payload; variant 'concurrent' (8 goroutines on their own buffers); WithPES at a unit start after every combination of flag options; clock / splice / private-data combinations in exactly fitting fields",
     "C05": "decoder allocation budget (64 KiB + 128 bytes per input byte, exact TotalAlloc deltas) and whole-sequence budget; segmentation descriptors cut inside consistent outer lengths; printed text inspected for fmt-swallowed panics; the filter's PID list compared afterwards; more than 64 KiB behind tiny sections; stack growth budget (4 MiB + 8 bytes per input byte); 64 KiB..1 MiB of three-byte sections",
     "C06": "program map sections in front of the subject section; pointer_field up to 255 for the payload-level API; sections of up to 4093 bytes in front of the PMT; codec-announcing descriptors on private streams; codec descriptors; other-PID packets carrying a complete PAT; payloads of exactly 188 bytes behind pointer_field 0x47; bufio readers the caller reads on from (table compared again)",
-    "C07": "free section_number/last_section_number and a second, different PID-0 packet later in the stream; pointer_field > 0; IsPMT through a PAT view that hides one program; bufio readers the caller reads on from (table compared again); PAT sections on other PIDs",
+    "C07": "free section_number/last_section_number and a second, different PID-0 packet later in the stream; pointer_field > 0; IsPMT through a PAT view that hides one program; bufio readers the caller reads on from (table compared again); PAT sections on other PIDs; IsPMT probes with every adaptation_field_control",
     "C08": "sibling descriptors (same type, event id, segment numbers); alignment_stuffing bytes in decoder inputs; pointer_field up to 255; what the pointer_field skips (section tails, section-head-shaped bytes); short foreign sections / descriptors as negatives",
     "C09": "UPID arguments are adjacent windows of one caller buffer (must stay intact); own component / MID lists handed back reordered; alignment stuffing in decoded inputs; adopting a descriptor of another signal and editing it through the caller's handle; decorated UPID / ComponentOffset list elements; edits through the handles MID() / Components() return; up to 255 components; over-width setter values with command-level getter comparison; own ComponentOffset implementations; SetDescriptors with nil / empty lists; variant 'concurrent' (8 goroutines encoding their own signals); descriptors addressed through handles; set-then-clear pairs",
     "C10": "sub-segment fields and stream-switch-shaped multiple-UPID lists in five shapes; cancel indicator, pts_adjustment splits, descriptors inside a decorator type; PTS-less signals of four kinds; a bystander tracker; unattached descriptors; open objects (incl. the pending breakaway) submitted again; per-call allocation budget",
     "C11": "six-byte PES starts; no alignment indicator without optional header; TREF extension; data starting like a video access unit; headers cut by the packet end; two PES packets of one stream in one buffer; legal ESCR / ES_rate values",
     "C12": "instants handed over in non-UTC zones; zone-database locations within two hours of a DST transition; non-UTC process time zone",
     "C13": "filter inputs with a stale CRC_32 of their own; session phase Extend (the caller appends to every returned slice, retained results re-checked); inputs beginning with CRC-valid blocks; stale input CRC in the emitted-SCTE variant; variant 'concurrent'; sap_type bits on decoded inputs",
-    "C14": "requested values outside 13 bits that alias stream PIDs under truncation; error contract with ignored PIDs by the letter",
+    "C14": "requested values outside 13 bits that alias stream PIDs under truncation; error contract with ignored PIDs by the letter; descriptor bodies that are packet-long runs of 0xFF",
     "C15": "pairs at power-of-two distances (drawn and enumerated); round durations of the 90 kHz clock; GOARCH=386 pass in the thorough tier; pairs mirrored around the wrap; sums next to powers of two",
-    "C16": "a PeekScanner with only the interface's methods; grids of whole packets whose first headers are implausible; thorough tier: first header 2 GiB into a generated stream (amd64 and 386)",
+    "C16": "a PeekScanner with only the interface's methods; grids of whole packets whose first headers are implausible; thorough tier: first header 2 GiB into a generated stream (amd64 and 386) and 4 GiB",
     "C17": "byte-identical consecutive packets; a predicate that is done and failing at once; a second live accumulator fed other packets and Reset at the same moments; predicate errors that are / wrap the completion sentinel; packet list exact and independent of the accumulator; content-sensitive predicates; packed PSI stream histories; payload-less unit starts and sticky predicate errors tolerated",
     "C18": "packet writers that also have their own Write; timeout-like reader errors before a second ReadFrom; reader errors that wrap io.EOF / io.ErrUnexpectedEOF; bare io.ErrUnexpectedEOF; errors delivered together with data, once or for good; a bystander adapter; regular files as readers; bufio buffers smaller than a packet; reads that return (0, nil); temporary (non-timeout) reader errors; packet writers with their own Write and ReadFrom",
     "C19": "decorated (non-library) implementations of the descriptor interface as arguments; cancel indicator on API-built descriptors; signal time split into pts_time + pts_adjustment; derived descriptors sharing every other field, differing in type or in two attributes; four signal kinds; unattached descriptors; cancel flag; both readings of 'sub-segment numbers' accepted; descriptors that a state tracker has already seen; stream-switch UPID lists; sibling descriptors of one signal",
@@ -132,7 +132,7 @@ def main():
                 "evidence_file": "/verif/evidence/%s.json" % pid,
                 "replay_cmd_template": "./check %s --replay {path}" % pid,
                 "engine": "gots-pbt-harness",
-                "level_claimed": {"category": "exploration", "text": text + (SESSION_NOTE if pid in SESSION_IDS else "") + ((" Later rounds (DESIGN sections 10.2-10.7, 5.0; oracles reviewed for over-strictness and run against statement-conforming variants of the library, 5.2-5.3), generator / oracle widened with: " + WAVE3_NOTE[pid] + ".") if pid in WAVE3_NOTE else ""), "design_ref": ref},
+                "level_claimed": {"category": "exploration", "text": text + (SESSION_NOTE if pid in SESSION_IDS else "") + ((" Later rounds (DESIGN sections 10.2-10.8, 5.0; oracles reviewed for over-strictness and run against statement-conforming variants of the library, 5.2-5.3), generator / oracle widened with: " + WAVE3_NOTE[pid] + ".") if pid in WAVE3_NOTE else ""), "design_ref": ref},
                 "level_note": note,
                 "technique": tech + ("; interference sessions (retained results, repeated / recycled inputs) over the same oracle" if pid in SESSION_IDS else ""),
             })
